@@ -38,6 +38,14 @@ def histories(tier):
     large = [("open", {}), ("w", 0, 30000), ("w", 30000, 30000), ("w", 70000, 20000), ("w", 95000, 1000), ("close",)]
     for mode in ("cont", "gapped"):
         out.append((dict(rf.Cfg(n=n, d=d, fc=fc, sc=sc, start=k0, **U.MODES[mode])), large, "%s large_files_io_inside_write" % mode))
+    # 100 samples per file filled by contiguous calls of 35: the chunked dataset of an open file is extended by
+    # several calls, H5Dclose writes the raw chunks and the final H5Fclose has only metadata left to flush
+    n, d, fc, sc = 100, 1, 1000, 2
+    k0 = rf.first_sample_of_ms(1394333998000, n, d)
+    many = [("open", {})] + [("w", 35 * j, 35 if j < 6 else 35) for j in range(7)] + [("close",)]
+    for mode in ("gapped", "cont"):
+        out.append((dict(rf.Cfg(n=n, d=d, fc=fc, sc=sc, start=k0, kind="i", size=4, cplx=False, **U.MODES[mode])), many,
+                    "%s contiguous_calls_extend_open_file" % mode))
     return out
 
 
@@ -186,7 +194,8 @@ def main(tier):
         PID, tier, "fault_enumeration",
         rule=("for each history (gap + rollover inside calls, multi-block call, rf_write_blocks only; gapped and continuous%s) EVERY intercepted "
               "file-system operation i (open/create, write, truncate, close, rename, mkdir) x errno {ENOSPC, EIO} x {once, "
-              "persistent from i on} is one execution of the public Python writer in a subprocess under the LD_PRELOAD shim%s; "
+              "persistent from i on for every operation} plus {ENOSPC persistent for space-consuming operations only: write, "
+              "truncate, create, mkdir - rename/close keep working} is one execution of the public Python writer in a subprocess under the LD_PRELOAD shim%s; "
               "the tree is inspected after every rename while the process runs and after it has exited (library exit "
               "handlers included): final-named files valid, only written (index,value) pairs, bytes unchanged since first "
               "seen; samples of calls that returned normally but are not readable => the faulted call or the next call must "
@@ -207,6 +216,9 @@ def main(tier):
             for ename in ERRNOS:
                 for persist in (0, 1):
                     sched.append((i, ename, persist, -1))
+            if kind in ("write", "trunc", "create", "mkdir"):
+                # the disk stays full: space-consuming operations keep failing, close/rename/unlink still work
+                sched.append((i, "ENOSPC", 2, -1))
         for k in range(0, len(sched), 8):
             jobs.append((item, sched[k:k + 8]))
     if tier != "quick":
